@@ -24,7 +24,8 @@ EXTENDS Naturals, Sequences, FiniteSets, TLC, Json, IOUtils, SequencesExt
 CONSTANTS NConst,     \* number of nodes when the graphs are enumerated here
           OrderMode,  \* "ad": successor lists ascending or descending (whole graph)
                       \* "perm": every permutation of every successor list
-                      \* "file": graphs (with orders) listed in IOEnv.DT_GRAPHS, N = IOEnv.DT_N
+                      \* "file": [succ, plan] records in IOEnv.DT_GRAPHS (graph with orders and the
+                      \*         query sequence to run on it), N = IOEnv.DT_N
           SelfLoops,  \* FALSE: enumerate only graphs without edges n -> n ("ad"/"perm")
           MaxQ,       \* 0 = unbounded number of queries (no history), else bound
           Dump        \* TRUE: print the history of every behaviour with MaxQ queries
@@ -34,10 +35,11 @@ VARIABLES succ,    \* node -> sequence of successors (iteration order of cimport
           seenV,   \* memo: node -> memoised dependency set ({} when not memoised)
           frames,  \* recursion stack: <<[node, i, deps, loop]>>, loop = 0 is None
           ok,      \* the last finished query returned Closure(q) and left q memoised
-          nq,      \* number of queries started (only counted when MaxQ > 0)
+          plan,    \* "file" mode: the query sequence to run (<<>> otherwise: free choice)
+          nq,      \* number of queries started (only counted when there is a bound)
           hist     \* Dump: <<[q, res, keys]>>
 
-vars == <<succ, seenK, seenV, frames, ok, nq, hist>>
+vars == <<succ, plan, seenK, seenV, frames, ok, nq, hist>>
 
 N == IF OrderMode = "file" THEN atoi(IOEnv.DT_N) ELSE NConst
 Nodes == 1..N
@@ -48,7 +50,7 @@ Asc(S)  == SetToSortSeq(S, LAMBDA a, b : a < b)
 Desc(S) == SetToSortSeq(S, LAMBDA a, b : a > b)
 Perms(S) == {s \in [1..Cardinality(S) -> S] : \A i, j \in 1..Cardinality(S) : s[i] = s[j] => i = j}
 
-FileGraphs == LET gs == ndJsonDeserialize(IOEnv.DT_GRAPHS) IN {gs[i] : i \in 1..Len(gs)}
+FileCases == LET gs == ndJsonDeserialize(IOEnv.DT_GRAPHS) IN {gs[i] : i \in 1..Len(gs)}
 
 (* the graph of a behaviour: chosen once, never changes *)
 InitGraph ==
@@ -56,10 +58,12 @@ InitGraph ==
          \E E \in [Nodes -> SUBSET Nodes], d \in BOOLEAN :
             /\ SelfLoops \/ \A n \in Nodes : n \notin E[n]
             /\ succ = [n \in Nodes |-> IF d THEN Desc(E[n]) ELSE Asc(E[n])]
+            /\ plan = <<>>
     [] OrderMode = "perm" ->
          /\ succ \in [Nodes -> UNION {Perms(S) : S \in SUBSET Nodes}]
          /\ SelfLoops \/ \A n \in Nodes : \A i \in 1..Len(succ[n]) : succ[n][i] # n
-    [] OrderMode = "file" -> succ \in FileGraphs
+         /\ plan = <<>>
+    [] OrderMode = "file" -> \E c \in FileCases : succ = c.succ /\ plan = c.plan
 
 Edges(n)   == {succ[n][i] : i \in 1..Len(succ[n])}
 Extract(n) == {n} \cup Edges(n)      \* immediate_dependencies(n)
@@ -92,20 +96,22 @@ Merged(F, subdeps, subloop) ==
 
 NewFrame(n) == [node |-> n, i |-> 1, deps |-> Extract(n), loop |-> 0]
 
-MayQuery == Idle /\ (MaxQ = 0 \/ nq < MaxQ)
-Count == nq' = IF MaxQ = 0 THEN 0 ELSE nq + 1
+QLimit == IF OrderMode = "file" THEN Len(plan) ELSE MaxQ
+MayQuery(n) == /\ Idle /\ (QLimit = 0 \/ nq < QLimit)
+               /\ OrderMode = "file" => plan[nq + 1] = n
+Count == nq' = IF QLimit = 0 THEN 0 ELSE nq + 1
 Log(qq, r, K) == hist' = IF Dump THEN Append(hist, [q |-> qq, res |-> Asc(r), keys |-> Asc(K)]) ELSE hist
 
 (* all_dependencies(n) on a memoised node: `if node in seen: return seen[node]` *)
 QueryHit(n) ==
-  /\ MayQuery /\ n \in seenK
+  /\ MayQuery(n) /\ n \in seenK
   /\ ok' = (seenV[n] = Closure(n)) /\ Count /\ Log(n, seenV[n], seenK)
-  /\ UNCHANGED <<succ, seenK, seenV, frames>>
+  /\ UNCHANGED <<succ, plan, seenK, seenV, frames>>
 
 QueryMiss(n) ==
-  /\ MayQuery /\ n \notin seenK
+  /\ MayQuery(n) /\ n \notin seenK
   /\ Count /\ frames' = <<NewFrame(n)>>
-  /\ UNCHANGED <<succ, seenK, seenV, ok, hist>>
+  /\ UNCHANGED <<succ, plan, seenK, seenV, ok, hist>>
 
 Calling == ~Idle /\ Top.i <= Len(succ[Top.node])
 Callee  == succ[Top.node][Top.i]
@@ -114,18 +120,18 @@ Callee  == succ[Top.node][Top.i]
 CallMemo ==
   /\ Calling /\ Callee \in seenK
   /\ frames' = Merged(frames, seenV[Callee], 0)
-  /\ UNCHANGED <<succ, seenK, seenV, ok, nq, hist>>
+  /\ UNCHANGED <<succ, plan, seenK, seenV, ok, nq, hist>>
 
 (* recursive call reaches a node that is on the stack: `return deps, node` *)
 CallStack ==
   /\ Calling /\ Callee \notin seenK /\ OnStack(frames, Callee)
   /\ frames' = Merged(frames, Extract(Callee), Callee)
-  /\ UNCHANGED <<succ, seenK, seenV, ok, nq, hist>>
+  /\ UNCHANGED <<succ, plan, seenK, seenV, ok, nq, hist>>
 
 CallDescend ==
   /\ Calling /\ Callee \notin seenK /\ ~OnStack(frames, Callee)
   /\ frames' = Append(frames, NewFrame(Callee))
-  /\ UNCHANGED <<succ, seenK, seenV, ok, nq, hist>>
+  /\ UNCHANGED <<succ, plan, seenK, seenV, ok, nq, hist>>
 
 (* end of the for loop:  if loop == node: loop = None                       *)
 (*                       if loop is None: seen[node] = deps                 *)
@@ -142,7 +148,7 @@ Return ==
                 /\ ok' = (f.deps = Closure(f.node) /\ f.node \in K)
            ELSE /\ frames' = Merged(SubSeq(frames, 1, Depth - 1), f.deps, l)
                 /\ UNCHANGED <<ok, hist>>
-  /\ UNCHANGED <<succ, nq>>
+  /\ UNCHANGED <<succ, plan, nq>>
 
 Init ==
   /\ InitGraph
@@ -171,6 +177,6 @@ LoopOnStack == \A k \in 1..Depth : frames[k].loop # 0 =>
 StackIsPath == /\ \A i, j \in 1..Depth : frames[i].node = frames[j].node => i = j
                /\ \A k \in 1..(Depth - 1) : frames[k + 1].node \in Edges(frames[k].node)
 
-DumpLeaves == (Dump /\ Idle /\ nq = MaxQ) =>
+DumpLeaves == (Dump /\ Idle /\ QLimit > 0 /\ nq = QLimit) =>
                  PrintT("@@" \o ToJson([n |-> N, succ |-> succ, qs |-> hist]))
 =============================================================================
